@@ -3,6 +3,7 @@ package engine
 import (
 	"encoding/hex"
 	"fmt"
+	basketv1 "github.com/regen-network/regen-ledger/api/v2/regen/ecocredit/basket/v1"
 	"sort"
 	"strings"
 
@@ -726,17 +727,50 @@ func init() {
 		}
 		return
 	}
-	wantBasketInfo := func(s *Snapshot, b interface {
-		GetBasketDenom() string
-		GetName() string
-		GetDisableAutoRetire() bool
-		GetCreditTypeAbbrev() string
-		GetCurator() []byte
-	}) string {
-		return j(b.GetBasketDenom(), b.GetName(), b.GetDisableAutoRetire(), b.GetCreditTypeAbbrev(), AddrStr(b.GetCurator()))
+	// the date criterion, field by field as seconds / nanoseconds / years ("-" = not set)
+	wantCrit := func(dc *basketv1.DateCriteria) string {
+		if dc == nil {
+			return "-"
+		}
+		out := ""
+		if x := dc.MinStartDate; x != nil {
+			out += fmt.Sprintf("min:%d.%d;", x.Seconds, x.Nanos)
+		}
+		if x := dc.StartDateWindow; x != nil {
+			out += fmt.Sprintf("win:%d.%d;", x.Seconds, x.Nanos)
+		}
+		if dc.YearsInThePast != 0 {
+			out += fmt.Sprintf("years:%d;", dc.YearsInThePast)
+		}
+		if out == "" {
+			return "-"
+		}
+		return out
+	}
+	gotCrit := func(dc *kt.DateCriteria) string {
+		if dc == nil {
+			return "-"
+		}
+		out := ""
+		if x := dc.GetMinStartDate(); x != nil {
+			out += fmt.Sprintf("min:%d.%d;", x.Seconds, x.Nanos)
+		}
+		if x := dc.GetStartDateWindow(); x != nil {
+			out += fmt.Sprintf("win:%d.%d;", x.Seconds, x.Nanos)
+		}
+		if dc.GetYearsInThePast() != 0 {
+			out += fmt.Sprintf("years:%d;", dc.GetYearsInThePast())
+		}
+		if out == "" {
+			return "-"
+		}
+		return out
+	}
+	wantBasketInfo := func(s *Snapshot, b *basketv1.Basket) string {
+		return j(b.GetBasketDenom(), b.GetName(), b.GetDisableAutoRetire(), b.GetCreditTypeAbbrev(), AddrStr(b.GetCurator()), wantCrit(b.DateCriteria))
 	}
 	gotBasketInfo := func(b *kt.BasketInfo) string {
-		return j(b.BasketDenom, b.Name, b.DisableAutoRetire, b.CreditTypeAbbrev, b.Curator)
+		return j(b.BasketDenom, b.Name, b.DisableAutoRetire, b.CreditTypeAbbrev, b.Curator, gotCrit(b.DateCriteria))
 	}
 	regQ(&qspec{Name: "Baskets", Path: kb + "Baskets", Paged: true,
 		Mk: func(a, b string, pg *query.PageRequest) gogoproto.Message {
